@@ -98,3 +98,7 @@ pub fn ecdsa_p521_ecdh<R: Rng + CryptoRng>(rng: R) -> SignedSecretKey {
 pub fn ed448_x448<R: Rng + CryptoRng>(rng: R) -> SignedSecretKey {
     generic(rng, KeyVersion::V6, KeyType::Ed448, KeyType::X448, "Verif 448 <x448@example.org>")
 }
+
+pub fn ecdsa_secp256k1_ecdh<R: Rng + CryptoRng>(rng: R) -> SignedSecretKey {
+    generic(rng, KeyVersion::V4, KeyType::ECDSA(pgp::crypto::ecc_curve::ECCCurve::Secp256k1), KeyType::ECDH(pgp::crypto::ecc_curve::ECCCurve::Curve25519Legacy), "Verif k256 <k256@example.org>")
+}
